@@ -451,7 +451,7 @@ func (p *Path) conv(fr *frame, pos token.Pos, tdst, tsrc types.Type, x Value) Va
 					}
 					return mkStr(string(rune(v)))
 				}
-				p.unsupported("string(symbolic rune) at %s", p.pos(pos))
+				return p.runeToStr(x, tsrc)
 			}
 		}
 		t, ok := x.(*Term)
@@ -883,3 +883,46 @@ func (p *Path) elemsOf(v Value) []Value {
 }
 
 var _ = fmt.Sprintf
+
+
+// runeToStr: string(r) for a symbolic integer: case split on the UTF-8 length classes (one path each), bytes as terms
+func (p *Path) runeToStr(x *Term, tsrc types.Type) *Str {
+	st := p.st
+	_, sgn, _, _ := basicInfo(tsrc)
+	var v *Term
+	if x.W < 32 {
+		if sgn {
+			v = st.SExt(x, 32)
+		} else {
+			v = st.ZExt(x, 32)
+		}
+	} else if x.W > 32 {
+		// out of range (also: negative) iff the value does not fit the 21-bit code space
+		hi := st.Extract(x, x.W-1, 21)
+		if p.decide(st.Not(st.Cmp(OpEq, hi, st.BV(x.W-21, 0)))) {
+			return mkStr("\uFFFD")
+		}
+		v = st.Extract(x, 31, 0)
+	} else {
+		v = x
+	}
+	c := func(n uint64) *Term { return st.BV(32, n) }
+	b8 := func(t *Term) *Term { return st.Extract(t, 7, 0) }
+	or := func(a *Term, k uint64) *Term { return st.Bin(OpBOr, a, c(k)) }
+	and := func(a *Term, k uint64) *Term { return st.Bin(OpBAnd, a, c(k)) }
+	shr := func(a *Term, k uint64) *Term { return st.Bin(OpLShr, a, c(k)) }
+	if p.decide(st.Cmp(OpUlt, v, c(0x80))) {
+		return &Str{Sym: []*Term{b8(v)}}
+	}
+	if p.decide(st.Cmp(OpUlt, v, c(0x800))) {
+		return &Str{Sym: []*Term{b8(or(shr(v, 6), 0xC0)), b8(or(and(v, 0x3F), 0x80))}}
+	}
+	bad := st.Or(st.Cmp(OpUlt, c(0x10FFFF), v), st.And(st.Cmp(OpUle, c(0xD800), v), st.Cmp(OpUle, v, c(0xDFFF))))
+	if p.decide(bad) {
+		return mkStr("\uFFFD")
+	}
+	if p.decide(st.Cmp(OpUlt, v, c(0x10000))) {
+		return &Str{Sym: []*Term{b8(or(shr(v, 12), 0xE0)), b8(or(and(shr(v, 6), 0x3F), 0x80)), b8(or(and(v, 0x3F), 0x80))}}
+	}
+	return &Str{Sym: []*Term{b8(or(shr(v, 18), 0xF0)), b8(or(and(shr(v, 12), 0x3F), 0x80)), b8(or(and(shr(v, 6), 0x3F), 0x80)), b8(or(and(v, 0x3F), 0x80))}}
+}
